@@ -17,7 +17,7 @@ CHECK = {
         "technique": "crash-point enumeration by file-system operation log replay (kept / lost / partially lost unsynced data, torn writes) + reopen + "
                      "ground-truth scan + continuation",
         "runs": [
-            {"name": "crash", "run": "^TestC17_", "checks": {"quick": 16, "thorough": 60}, "shards": {"quick": 1, "thorough": 16}},
+            {"name": "crash", "run": "^TestC17_", "checks": {"quick": 20, "thorough": 60}, "shards": {"quick": 1, "thorough": 16}},
         ],
         "rule": "history shapes: small (never reaches the capacity), bigfirst (one item of 88-96% of 1 MB then 3..18 puts), quantum (27..40 items "
                 "<= 5% of 1 MB), cap0 (capacity 0: every put runs a pruning pass); memtable 64 KiB / 1 MiB / 4 MiB; ids as in C04-C06; occasional "
